@@ -1,8 +1,14 @@
 package c07
 
 import (
+	"bytes"
+	"fmt"
 	"os"
+	"strings"
 	"testing"
+	"time"
+
+	"github.com/inbucket/inbucket/v3/pkg/storage"
 
 	"github.com/inbucket/inbucket/v3/pkg/extension"
 	"pgregory.net/rapid"
@@ -100,16 +106,143 @@ var propWrap = hx.Prop[Case]{
 	Run: run,
 }
 
+// ---- long: ids over a history longer than the id counter's period ----
+
+// LCase: Keep messages stay in the mailbox while N further deliveries to the same mailbox come
+// and go one at a time.  Dates: "same" every delivery carries one fixed date, "step" each
+// carries a date one second after the previous one, "now" the current time.
+type LCase struct {
+	Backend string `json:"backend"`
+	Box     string `json:"box"`
+	Keep    int    `json:"keep"`
+	N       int    `json:"n"`
+	Dates   string `json:"dates"`
+}
+
+var propLong = hx.Prop[LCase]{
+	ID: pid, Name: "long",
+	Rule: "one mailbox of the file (or mem) store keeps 1-3 messages while 10010-10300 further deliveries to it are added and removed one at a " +
+		"time (more than the period of the file store's 4-digit id counter), the deliveries carrying one fixed date, dates one second apart, or " +
+		"the current time, paced below 5000 a second (the id scheme's documented resolution is 10000 ids a second); no id may ever be issued " +
+		"twice for the mailbox, the listing is checked every 500 steps and the kept messages must read back as written at the end; " +
+		"non-trivial = always (every case crosses the counter's period); distinct = distinct case JSON",
+	Quick: 1, Thorough: 3,
+	Gen: func(t *rapid.T) LCase {
+		return LCase{
+			Backend: rapid.SampledFrom([]string{"file", "file", "file", "mem"}).Draw(t, "backend"),
+			Box:     rapid.SampledFrom([]string{"long", "long@a.test", "l+o.n-g"}).Draw(t, "box"),
+			Keep:    rapid.IntRange(1, 3).Draw(t, "keep"),
+			N:       rapid.IntRange(10010, 10300).Draw(t, "n"),
+			Dates:   rapid.SampledFrom([]string{"same", "same", "step", "now"}).Draw(t, "dates"),
+		}
+	},
+	Run: func(c LCase) *hx.Outcome {
+		o := &hx.Outcome{NonTrivial: true}
+		o.Class("backend " + c.Backend + ", dates " + c.Dates)
+		var st storage.Store
+		if c.Backend == "file" {
+			dir := hx.TempDir()
+			defer os.RemoveAll(dir)
+			st = hx.NewFile(extension.NewHost(), dir, 0)
+		} else {
+			st = hx.NewMem(extension.NewHost(), 0, 0)
+		}
+		date := func(i int) time.Time {
+			switch c.Dates {
+			case "step":
+				return hx.BaseTime.Add(time.Duration(i) * time.Second)
+			case "now":
+				return time.Now()
+			}
+			return hx.BaseTime
+		}
+		issued := map[string]int{}
+		add := func(i int, body []byte) (string, bool) {
+			id, err := st.AddMessage(hx.NewDelivery(c.Box, nil, nil, date(i), fmt.Sprintf("s%d", i), body))
+			if err != nil {
+				o.Failf(pid+":add-failed", "[%s] delivery %d: %v", c.Backend, i, err)
+				return "", false
+			}
+			if prev, dup := issued[id]; dup {
+				o.Failf(pid+":id-reused", "[%s dates=%s] delivery %d to %q was given the id %q, which delivery %d to the same mailbox already had", c.Backend, c.Dates, i, c.Box, id, prev)
+				return "", false
+			}
+			issued[id] = i
+			return id, true
+		}
+		var keptIDs []string
+		var keptBody [][]byte
+		for k := 0; k < c.Keep; k++ {
+			b := []byte(fmt.Sprintf("kept message %d\r\n%s\r\n", k, strings.Repeat("k", 10*k)))
+			id, ok := add(k, b)
+			if !ok {
+				return o
+			}
+			keptIDs, keptBody = append(keptIDs, id), append(keptBody, b)
+		}
+		listing := func(step int, extra string) bool {
+			ms, err := st.GetMessages(c.Box)
+			want := append([]string{}, keptIDs...)
+			if extra != "" {
+				want = append(want, extra)
+			}
+			var got []string
+			for _, m := range ms {
+				got = append(got, m.ID())
+			}
+			if err != nil || strings.Join(got, ",") != strings.Join(want, ",") {
+				o.Failf(pid+":long-listing", "[%s dates=%s] after delivery %d the mailbox lists %v (err %v), expected %v", c.Backend, c.Dates, step, got, err, want)
+				return false
+			}
+			return true
+		}
+		t0 := time.Now()
+		for i := c.Keep; i < c.Keep+c.N; i++ {
+			// stay below the id scheme's resolution: it promises distinct ids for 10000 deliveries a second
+			if ahead := time.Duration(i-c.Keep)*200*time.Microsecond - time.Since(t0); ahead > 0 {
+				time.Sleep(ahead)
+			}
+			id, ok := add(i, []byte(fmt.Sprintf("passing message %d\r\n", i)))
+			if !ok {
+				return o
+			}
+			if i%500 == 0 && !listing(i, id) {
+				return o
+			}
+			if err := st.RemoveMessage(c.Box, id); err != nil {
+				o.Failf(pid+":remove-failed", "[%s] removing delivery %d (%s): %v", c.Backend, i, id, err)
+				return o
+			}
+		}
+		if !listing(c.Keep+c.N, "") {
+			return o
+		}
+		for k, id := range keptIDs {
+			m, err := st.GetMessage(c.Box, id)
+			if err != nil || m == nil {
+				o.Failf(pid+":long-kept-lost", "[%s dates=%s] kept message %d (%s): %v", c.Backend, c.Dates, k, id, err)
+				continue
+			}
+			src, err := hx.ReadSource(m)
+			if err != nil || !bytes.Equal(src, keptBody[k]) || m.Size() != int64(len(keptBody[k])) {
+				o.Failf(pid+":long-kept-content", "[%s dates=%s] kept message %d (%s) reads back %q size %d (err %v), written %q", c.Backend, c.Dates, k, id, src, m.Size(), err, keptBody[k])
+			}
+		}
+		return o
+	},
+}
+
 func TestProp(t *testing.T) {
 	t.Run("hist", prop.Check)
 	t.Run("wrap", propWrap.Check)
+	t.Run("long", propLong.Check)
 }
-func TestRegress(t *testing.T) { prop.Regress(t); propWrap.Regress(t) }
+func TestRegress(t *testing.T) { prop.Regress(t); propWrap.Regress(t); propLong.Regress(t) }
 func TestReplay(t *testing.T) {
 	if *hx.ReplayPath == "" {
 		t.Skip("no -replay")
 	}
-	if !prop.Replay(t, *hx.ReplayPath) && !propWrap.Replay(t, *hx.ReplayPath) {
+	if !prop.Replay(t, *hx.ReplayPath) && !propWrap.Replay(t, *hx.ReplayPath) && !propLong.Replay(t, *hx.ReplayPath) {
 		t.Fatalf("no prop matches %s", *hx.ReplayPath)
 	}
 }
